@@ -1148,6 +1148,10 @@ def term_int(t):
             a = a[1]
         if isinstance(a, tuple) and len(a) == 2 and a[0] == 'array' and isinstance(a[1], tuple):
             return len(a[1])          # length of an array literal
+        if isinstance(a, tuple) and len(a) == 2 and a[0] == 'named' and _TL.facts is not None:
+            cv = _TL.facts.const_value(a[1])
+            if isinstance(cv, (list, tuple)):
+                return len(cv)        # length of a named array constant
         return None
     if t[0] == 'bin':
         a, b = term_int(t[2]), term_int(t[3])
